@@ -29,6 +29,17 @@ def rule_charge_spellings(ck, repo, R):
         sign = 1 if k[0] == '+' else -1
         mag = int(k[1:]) if k[1:].isdigit() else len(k)
         ck.decide(v == sign * mag, R, f'value:{k}', v, f'charge_dict[{k!r}] = {v}, the spelling denotes {sign * mag}', file=m.relpath, line=line)
+    # spellings the regex admits but the table does not list must be rejected by the decoding branch
+    for fn, language, what in (('_atom_parse', lang, 'atom_re charge group'), ('_query_parse', chg, 'chg_re')):
+        extra = sorted(language - set(cd))
+        f = repo.func(f'{TOK}:{fn}')
+        blocks = [n for n in ast.walk(f.node) if isinstance(n, ast.If) and (src(n.test) == 'charge' or isinstance(n.test, ast.NamedExpr) and src(n.test.target) == 'charge')]
+        if not blocks:
+            raise AnalysisError(f'{fn}: charge decoding branch not found')
+        rejects = any(isinstance(x, ast.Raise) for x in ast.walk(ast.Module(body=blocks[0].body, type_ignores=[])))
+        ck.decide(not extra or rejects, R, f'{fn}:rejects-non-charges', extra,
+                  f'{what} also matches {extra}, which are not charge spellings, and the charge branch of {fn} has no rejection: such tokens are read as some charge '
+                  f'instead of raising the invalid-SMILES error', file=f.file, line=blocks[0].lineno, func=fn)
     ck.floor(R, 40)
     return cd, lang, chg
 
@@ -246,6 +257,17 @@ def rule_mark_parity(ck, repo, R):
                 if isinstance(p, ast.If):
                     ctxs.add(('' if child in p.body else 'not ') + src(p.test))
                 child, p = p, parents.get(p)
+        # the recorded atom is the one being created: the index variable incremented after atoms.append(...)
+        idx = [src(n.target) for n in ast.walk(pr.node) if isinstance(n, ast.AugAssign) and isinstance(n.op, ast.Add) and src(n.value) == '1'
+               and isinstance(n.target, ast.Name)]
+        appended = any(isinstance(n, ast.Call) and src(n.func) == 'atoms.append' for n in ast.walk(pr.node))
+        new_idx = [v for v in idx if v != 'last_num']
+        if not appended or len(new_idx) != 1:
+            raise AnalysisError(f'parser: index variable of the atom being created not identifiable ({idx})')
+        args = sorted({src(a.args[0]) for a in adds if a.args})
+        ck.decide(args == [new_idx[0]], R, 'reader:starts-records-new-atom', args,
+                  f'parser records {args} as chain-start atoms; it must record the atom being created (`{new_idx[0]}`), not the previous one',
+                  file=pr.file, line=adds[0].lineno if adds else pr.lineno, func=pr.qualname)
         ck.decide(ret_ok and len(adds) == 2 and 'not atoms' in ctxs and any(c.startswith('not bt in (1, 10, 12)') or c == 'not bt in (1, 10, 12)' for c in ctxs), R, 'reader:starts-set', sorted(ctxs),
                   f'parser fills `{key}` under {sorted(ctxs)}; expected exactly: no atom yet, and atom after a dot', file=pr.file, line=pr.lineno, func=pr.qualname)
     # CX radicals
